@@ -66,31 +66,24 @@ def support(ctx, cname):
     site = HDMQ + ".update"
     tr = upd(ctx, cname)
     bh0 = [e for e in q.find_calls(tr, HDMQ + "._build_histograms") if q.stack_has(e, site)]
-    lo_name = hi_name = None
-    if bh0 and len(bh0[0].args) >= 3:
-        for k, which in ((1, "lo"), (2, "hi")):
-            a_ = bh0[0].args[k].single_atom()
-            if a_ is not None and a_[0] == "loopvar" and a_[2].startswith("$"):
-                if which == "lo":
-                    lo_name = a_[2][1:]
-                else:
-                    hi_name = a_[2][1:]
-    app = [e for e in tr.of("localmut") if e.how == "method:append" and e.name in (lo_name, hi_name) and e.name is not None and q.stack_has(e, site)]
-    ctx.anchor(site, "per-feature range collected in a loop [%s]" % cname, len(app) == 2, "found %d" % len(app))
-    for e in app:
-        v = e.value.single_atom()[1][0].single_atom()
-        ok = v is not None and v[0] == "mcall" and v[2] == ("min" if e.name == lo_name else "max")
-        cat = v[1].single_atom() if ok else None
-        ok = ok and cat is not None and cat[0] == "call" and cat[1] == "numpy.concatenate"
+    # the two edge lists: one entry per feature, however the repetition is written (loop + append, comprehension, helper)
+    for k, nm, red in ((1, "lower", "min"), (2, "upper", "max")):
+        arg = bh0[0].args[k] if bh0 and len(bh0[0].args) > k else None
+        view = q.seq_view(tr, arg) if arg is not None else None
+        if not ctx.anchor(site, "per-feature %s edge collected once per feature [%s]" % (nm, cname), view is not None, q.short(arg, 100) if arg is not None else "", bh0[0] if bh0 else None):
+            continue
+        pooled = q.reduction_of(view[0], red)
+        cat = pooled.single_atom() if pooled is not None else None
+        ok = cat is not None and cat[0] == "call" and cat[1] == "numpy.concatenate"
         both = False
         if ok:
             parts = cat[2][0].single_atom()
             if parts is not None and parts[0] in ("tuple", "list") and len(parts[1]) == 2:
                 refs = [x for x in parts[1] if _root_attr(_col_base(x)) == "reference"]
                 tst = [x for x in parts[1] if T.mentions(x, lambda a: a == ("param", "X")) and _root_attr(_col_base(x)) != "reference"]
-                both = len(refs) == 1 and len(tst) == 1 and _col_idx(refs[0]) == _col_idx(tst[0]) and _col_idx(refs[0]) is not None
-        ctx.ob("AGREE-support", site, "%s edges span reference and batch of this update, same feature [%s]" % ("lower" if e.name == lo_name else "upper", cname), ok and both,
-               "bin edges must be computed from the concatenation of the current reference and the current batch: %s" % q.short(e.value, 160), e)
+                both = len(refs) == 1 and len(tst) == 1 and _col_idx(refs[0]) == q.POS and _col_idx(tst[0]) == q.POS
+        ctx.ob("AGREE-support", site, "%s edges span reference and batch of this update, same feature [%s]" % (nm, cname), ok and both,
+               "bin edges must be computed from the concatenation of the current reference and the current batch: position j holds %s" % q.short(view[0], 160), bh0[0])
     bh = q.find_calls(tr, HDMQ + "._build_histograms")
     bh = [e for e in bh if q.stack_has(e, site)]
     # idiom-independent necessary condition: the bin edges depend on the batch of this call AND on the current reference -
@@ -115,7 +108,7 @@ def support(ctx, cname):
         ok = bh[0].args[1:] == bh[1].args[1:] and _root_attr(bh[0].args[0]) == "reference" and T.mentions(bh[1].args[0], lambda a: a == ("param", "X"))
         ctx.ob("AGREE-support", site, "both histograms use the same bin edges [%s]" % cname, ok, "", bh[0])
         mm = [e for e in tr.of("local") if e.name in ("mins", "maxes") and q.stack_has(e, site)]
-        okl = all((a.single_atom() or ("",))[0] == "loopvar" for a in bh[0].args[1:3])
+        okl = all((a.single_atom() or ("",))[0] == "loopvar" or q.seq_view(tr, a) is not None for a in bh[0].args[1:3])
         ctx.ob("AGREE-support", site, "the edges passed are the ranges collected in this update [%s]" % cname, okl, q.short(bh[0].args[1], 80), bh[0])
     # _build_histograms
     tb = ctx.trace(cname, "_build_histograms")
@@ -214,28 +207,26 @@ def distance(ctx, cname):
     ctx.ob("FRM", site, "per-feature distance between reference and batch histograms of the same feature [%s]" % cname, ok, "", dyn[0] if dyn else None)
     if cd and dyn:
         v = cd[0].value
-        lv = [a for a in T.atoms_of(v, "loopvar") if a[2].startswith("$")]
-        acc_name = lv[0][2][1:] if len(lv) == 1 else None
-        tot = [e for e in tr.of("local") if e.name == acc_name and e.aug is not None and q.stack_has(e, site)]
-        ok = len(tot) == 1 and tot[0].aug == ("Add", dyn[0].result)
-        init = [e for e in tr.of("local") if e.name == acc_name and e.aug is None and q.stack_has(e, site)]
-        ok = ok and len(init) == 1 and init[0].value == const(0)
         dim = A("_input_col_dim")
         for x in reversed(tr.events[: cd[0].seq]):
             if x.kind == "load" and x.attr == "_input_col_dim":
                 dim = x.value
                 break
-        ok2 = len(lv) == 1 and T.same(v, atom(lv[0]) / dim)
-        ctx.ob("FRM", site, "distance = (1/d) * sum of the feature distances [%s]" % cname, ok and ok2, q.short(v, 120), cd[0])
-    # the per-feature distances are collected in the same loop and are what the next update compares with
-    if dyn:
+        each = q.at_pos(tr, dyn[0].result)
+        # the total: a running sum or sum(...) of one distance per feature, however the repetition is written
+        acc = [a for a in T.walk(v) if (a[0] == "loopvar" and isinstance(a[2], str) and a[2].startswith("$")) or (a[0] == "call" and a[1] in ("sum", "numpy.sum"))]
+        acc = [a for a in acc if T.same(v, atom(a) / dim)]
+        sv = q.sum_view(tr, atom(acc[0])) if len(acc) == 1 else None
+        if ctx.anchor(site, "current_distance = <total of a per-feature repetition> / d [%s]" % cname, sv is not None, q.short(v, 120), cd[0]):
+            ok = (sv[0] == each or T.same(sv[0], each)) and T.same(sv[1], dim)
+            ctx.ob("FRM", site, "distance = (1/d) * sum of the feature distances [%s]" % cname, ok, "summand %s over %s positions" % (q.short(sv[0], 80), q.short(sv[1], 40)), cd[0])
+        # the per-feature distances are what the next update compares with
         pf = tr.stores("_prev_feature_distances")
-        lst = (pf[0].value.single_atom() or ("", "", ""))[2][1:] if pf and (pf[0].value.single_atom() or ("",))[0] == "loopvar" else None
-        apx = [e for e in tr.of("localmut") if e.how == "method:append" and e.name == lst and q.stack_has(e, site)]
-        init = [e for e in tr.of("local") if e.name == lst and e.aug is None and q.stack_has(e, site)]
-        ok = lst is not None and len(apx) == 1 and apx[0].value == atom(("tuple", (dyn[0].result,))) and set(map(id, apx[0].pc)) == set(map(id, dyn[0].pc)) \
-            and len(init) == 1 and init[0].value == atom(("list", ()))
-        ctx.ob("FRM", site, "the list of per-feature distances holds one distance per feature, in feature order [%s]" % cname, ok, "", apx[0] if apx else None)
+        lv = q.seq_view(tr, pf[0].value) if len(pf) == 1 else None
+        if ctx.anchor(site, "_prev_feature_distances = <list built once per feature> [%s]" % cname, lv is not None, q.short(pf[0].value, 120) if pf else "", pf[0] if pf else None):
+            ok = (lv[0] == each or T.same(lv[0], each)) and T.same(lv[1], dim)
+            ctx.ob("FRM", site, "the list of per-feature distances holds one distance per feature, in feature order [%s]" % cname, ok,
+                   "position j holds %s, length %s" % (q.short(lv[0], 80), q.short(lv[1], 40)), pf[0])
     # the epsilon of this batch is what is recorded in epsilon_values[total_batches]
     ce = [e for e in tr.mutations("epsilon_values") if e.how == "setitem" and q.stack_has(e, site)]
     ok = len(ce) == 1 and cd and T.same(ce[0].value, T.mk_abs(cd[0].value - A("_prev_distance")))
@@ -340,20 +331,17 @@ def blocks(ctx, cname):
     ctx.ob("FRM", site, "feature_info names argmax of the per-feature epsilons [%s]" % cname, ok, "")
     fe = tr.stores("feature_epsilons")
     ok = False
-    if fe:
-        leaves = [l for _c, l in q.ite_leaves(fe[0].value)]
-        c = fe[0].value.single_atom()
-        if c is not None and c[0] == "comp":
-            elt = c[2][0]
-            ok = len(elt.atoms()) == 2 and any(_root_attr(atom(x)[0] if False else atom(x)) is None for x in elt.atoms())
-            its = c[3][0].single_atom()
-            ok = its is not None and its[0] == "call" and its[1] == "zip" and _root_attr(its[2][1]) == "_prev_feature_distances"
-            if ok:
-                # element = (current distance of the feature) - (its previous distance), same position of both lists
-                ix = [x for x in T.atoms_of(elt, "idx")]
-                ok = len(set(ix)) == 1 and len(its[2]) == 2 and T.same(elt, q.sub(its[2][0], atom(ix[0])) - q.sub(its[2][1], atom(ix[0]))) and \
-                    (its[2][0].single_atom() or ("",))[0] == "loopvar"
-    ctx.ob("FRM", site, "per-feature epsilon = distance - previous distance of the same feature [%s]" % cname, ok, "")
+    why = ""
+    pf = tr.stores("_prev_feature_distances")
+    fd = q.seq_view(tr, pf[0].value) if len(pf) == 1 else None
+    ev_ = q.seq_view(tr, fe[0].value) if fe else None
+    if fe and ctx.anchor(site, "feature_epsilons = <list built once per feature> [%s]" % cname, ev_ is not None and fd is not None, q.short(fe[0].value, 120), fe[0]):
+        # element = (current distance of the feature) - (its previous distance), same position of both lists
+        rest = fd[0] - ev_[0]
+        ra = rest.single_atom()
+        ok = ra is not None and ra[0] == "sub" and ra[2] == q.POS and _root_attr(ra[1]) == "_prev_feature_distances" and fe[0].seq < pf[0].seq
+        why = "position j holds %s" % q.short(ev_[0], 120)
+    ctx.ob("FRM", site, "per-feature epsilon = distance - previous distance of the same feature [%s]" % cname, ok, why)
 
 
 def _zip_pos(a):
